@@ -135,9 +135,13 @@ class FuncVal:
         # with Python's own equality and hashing (0.0 == -0.0, 1 == 1.0 == True)
         self.memo = None
         self.unmodelled_deco = None
+        self.is_ctxmgr = False
         for d in decos:
             base = d.split("(")[0].split(".")[-1]
             if base in ("classmethod", "staticmethod", "property", "abstractmethod", "wraps"):
+                continue
+            if base == "contextmanager" and self.is_gen:
+                self.is_ctxmgr = True
                 continue
             if base in ("lru_cache", "cache"):
                 self.memo = {}
@@ -353,6 +357,17 @@ class Effect:
     def __repr__(self):
         d = {k: v for k, v in self.__dict__.items() if k != "kind"}
         return f"{self.kind}({d})"
+
+
+class CtxMgrVal:
+    """the result of calling a @contextmanager generator function: its frame, not yet executed"""
+
+    def __init__(self, f, fr):
+        self.f = f
+        self.fr = fr
+
+    def __repr__(self):
+        return f"<context manager {self.f.qual}>"
 
 
 class Frame:
@@ -957,6 +972,9 @@ class Interp:
             raise PyExc("TypeError", f"unexpected keyword {list(kwargs)} for {f.qual}")
         fr = Frame(f, env, f.modname)
         fr.closure = f.closure
+        if f.is_ctxmgr:
+            # contextlib.contextmanager: the call only makes the manager; the body runs inside a `with` (see exec)
+            return CtxMgrVal(f, fr)
         if f.is_gen:
             fr.yields = []
             try:
@@ -969,6 +987,64 @@ class Interp:
         except _Return as r:
             return r.v
         return None
+
+    def _exec_with(self, st, k, fr):
+        """`with` item k of st (items nest left to right).  Modelled: managers made by a @contextmanager generator
+        function of the analysed source (the generator's body is evaluated with the with-body in place of its single
+        `yield`: an exception of the body is raised AT the yield, as contextlib does) and instances of analysed classes
+        with __enter__/__exit__.  Anything else is a gap of the model."""
+        if k == len(st.items):
+            self.exec_block(st.body, fr)
+            return
+        item = st.items[k]
+        cm = self.eval(item.context_expr, fr)
+        if isinstance(cm, CtxMgrVal):
+            pending = []
+            count = [0]
+
+            def hook(v):
+                count[0] += 1
+                if count[0] > 1:
+                    raise AnalysisError(f"peval: context manager {cm.f.qual} yields more than once")
+                if item.optional_vars is not None:
+                    self.assign(item.optional_vars, v, fr)
+                try:
+                    self._exec_with(st, k + 1, fr)
+                except (_Return, _Break, _Continue) as c:  # leaving the with-body normally: the generator resumes
+                    pending.append(c)
+
+            g = cm.fr
+            g.yields = []
+            g.yield_hook = hook
+            try:
+                self.exec_block(cm.f.node.body, g)
+            except _Return:
+                pass
+            if count[0] == 0:
+                raise AnalysisError(f"peval: context manager {cm.f.qual} did not yield")
+            if pending:
+                raise pending[0]
+            return
+        if isinstance(cm, Obj) and cm.kind == "instance":
+            try:
+                ent, ext = self.getattr(cm, "__enter__"), self.getattr(cm, "__exit__")
+            except PyExc:
+                raise AnalysisError(f"peval: unsupported with-statement `{norm(st)[:80]}`")
+            v = self.call(ent, [], {})
+            if item.optional_vars is not None:
+                self.assign(item.optional_vars, v, fr)
+            try:
+                self._exec_with(st, k + 1, fr)
+            except PyExc as e:
+                if self.truth(self.call(ext, [Opaque(f"type:{e.etype}"), e, None], {})):
+                    return
+                raise
+            except (_Return, _Break, _Continue):
+                self.call(ext, [None, None, None], {})
+                raise
+            self.call(ext, [None, None, None], {})
+            return
+        raise AnalysisError(f"peval: unsupported with-statement `{norm(st)[:80]}`")
 
     # ------------------------------------------------------------------ statements
     def exec_block(self, stmts, fr):
@@ -1164,7 +1240,8 @@ class Interp:
             if hk is not None:
                 hk(self, st, fr)
                 return
-            raise AnalysisError(f"peval: unsupported with-statement `{norm(st)[:80]}`")
+            self._exec_with(st, 0, fr)
+            return
         if isinstance(st, ast.Global):
             # names bound at module level: reads and writes of the frame go to the module's globals
             if not hasattr(fr, "globals"):
@@ -1539,6 +1616,10 @@ class Interp:
             f2 = fr
             while f2.yields is None:
                 f2 = f2.parent_frame
+            hk = getattr(f2, "yield_hook", None)
+            if hk is not None:
+                hk(v)
+                return None
             f2.yields.append(v)
             return None
         if isinstance(e, ast.Lambda):
